@@ -36,6 +36,8 @@ MAPPING_API = {'keys', 'items', 'values', 'get', '__getitem__', '__iter__', '__l
 
 
 def run(ctx):
+    from rules.common import require_fields
+    require_fields(ctx.program, 'cacheutils.ThresholdCounter', ['_count_map', 'total', '_cur_bucket', '_thresh_count', '_threshold'])
     prog = ctx.program
     ci = prog.cls(CLS)
     mc = prog.func(CLS + '.most_common')
